@@ -1935,10 +1935,21 @@ func (ss *ServerSession) handle(ctx context.Context, req *jsonrpc.Request) (_ an
 		return nil, perRequestErr
 	}
 
+	// The versions on offer are those the session's transport can serve (a
+	// request naming 2026-07-28 is not to be served over, say, HTTP+SSE).
+	// server/discover is exempt: it is how a client finds out what is on offer.
+	supported := supportedProtocolVersions
+	if req.Method != methodDiscover {
+		ss.mu.Lock()
+		if ss.supportedVersions != nil {
+			supported = ss.supportedVersions
+		}
+		ss.mu.Unlock()
+	}
 	if validatedMeta.usesNewProtocol &&
-		!slices.Contains(supportedProtocolVersions, validatedMeta.initializeParams.ProtocolVersion) {
+		!slices.Contains(supported, validatedMeta.initializeParams.ProtocolVersion) {
 		data, _ := json.Marshal(UnsupportedProtocolVersionData{
-			Supported: supportedProtocolVersions,
+			Supported: supported,
 			Requested: validatedMeta.initializeParams.ProtocolVersion,
 		})
 		return nil, &jsonrpc.Error{
